@@ -53,6 +53,7 @@ package data
 //@ spec carryPos(v []int, w []int, k int) int = ite(k < 0, -1, ite(v[k] + 1 < w[k], k, carryPos(v, w, k-1)))
 
 //@ func Product(ix) returns (r)
+//@   canary [C02.canary-product] r == 1
 //@   safety C02
 //@   assigns nothing
 //@   ensures [C02.product] r == iprod(ix, len(ix))
@@ -138,6 +139,7 @@ package data
 //@ types {T} = ArrayType, Float64, Float32, Int32, Uint32, Int64, Uint64, Int, Uint
 
 //@ func (*Nd{T}Common).Index(nd, loc) returns (r)
+//@   canary [C01.canary-index] r == nd.Start
 //@   safety C01
 //@   requires len(loc) <= len(nd.OffsetStep)
 //@   assigns nothing
